@@ -576,6 +576,8 @@ def write_evidence_file(mod, prop, tier, seed, report, exit_code):
             'components': mod.COMPONENTS,
             'workers': report['workers'],
             'hash_seeds_cycled': HASH_SEEDS,
+            'time_zone_classes': TZ_CLASSES,
+            'cpu_count_classes': CPU_CLASSES,
             'stopped_by': report['stopped_by'],
             'requested_runs': report['cfg']['runs'],
             'known_finding_hits': agg['known_hits'],
